@@ -102,7 +102,10 @@ def run_optable(prop):
             bobls, bfns = falliblelemmas.block_obligations(S, tb)
             for o in bobls:
                 battery_of[o.role] = falliblelemmas.block_battery
-            fobls, ffns = fobls + bobls, sorted(set(ffns) | set(bfns))
+            iobls, ifns = falliblelemmas.if_obligations(S)
+            for o in iobls:
+                battery_of[o.role] = falliblelemmas.if_battery
+            fobls, ffns = fobls + bobls + iobls, sorted(set(ffns) | set(bfns) | set(ifns))
             tobls, tfns = tobls + sobls + fobls, sorted(set(tfns) | set(sfns) | set(ffns))
             ev.cov["bounds"].append("Op::type_info fallibility lemma (all opcodes, no bound): the fallibility of every TypeDef is tracked as a boolean term; kinds uninterpreted")
             ev.cov["bounds"].append("Op::type_info state-flow lemma (all opcodes, no bound): operand constants are read in the state in which the operand is evaluated")
